@@ -404,6 +404,7 @@ pub fn run(ctx: &mut Ctx) {
     ctx.campaign("histories", CampaignCfg::new(t.pick(20_000, 400_000)).shards(16), || strategy(40), run_case);
     ctx.campaign("long", CampaignCfg::new(t.pick(3_000, 60_000)).shards(16), || strategy(150), run_case);
     ctx.campaign("keep-alive-real-time", CampaignCfg::new(t.pick(1_600, 40_000)).shards(16).shrink_iters(200), || rt_strategy(16), run_case_rt);
+    ctx.campaign("slow-protocol", CampaignCfg::new(t.pick(160, 3_000)).shards(16), super::c08_slow::strategy, super::c08_slow::run_case);
     ctx.campaign("real-opens", CampaignCfg::new(t.pick(480, 10_000)).shards(16).shrink_iters(6), super::c08_nodes::strategy, super::c08_nodes::run_case);
     let _ = fail_marker;
 }
